@@ -777,6 +777,35 @@ def coincidence_cases(tier):
     return C
 
 
+def dense_minterm_cases(tier, r):
+    """SumOfMinterms with DENSE minterm lists (more than half of the 2**w combinations): every size 2**(w-1)+1 .. 2**w - 1 without the
+    all-ones value, without 0, complements of every single value, the full list, lists with repeated entries, several orders
+    (seed C08m: a complement-and-invert optimisation for dense lists that never treats all-ones as unlisted)"""
+    C = []
+    for aw in ((1, 2, 3, 4) if tier == 'quick' else (1, 2, 3, 4, 5, 6)):
+        n = 1 << aw
+        full = list(range(n))
+        lists = [full, full[::-1], full + [0], full + [n - 1]]
+        for m in (full if aw <= 4 else [0, 1, n // 2, n - 2, n - 1]):
+            lists.append([v for v in full if v != m])                    # complement of a single value
+        for size in range(n // 2 + 1, n):
+            lists.append(full[:size])                                    # without all-ones (and the other top values)
+            lists.append(full[n - size:])                                # without 0 (and the other low values)
+            lists.append(r.shuffle(full[:n - 1])[:size])                 # seeded, never all-ones
+            lists.append(r.shuffle(full[1:])[:size])                     # seeded, never 0
+            lists.append(r.shuffle(full)[:size])
+            if tier != 'quick' or size in (n // 2 + 1, n - 1):
+                lists.append(full[:size] + full[:2])                     # dense with repeated entries
+                lists.append(full[:size][::-1])
+        lists += [full[:n // 2], full[n // 2:], full[:n // 2] + [0, 0, 1]]  # exactly half / half with repeats (controls)
+        seen = set()
+        for ms in lists:
+            if ms and tuple(ms) not in seen:
+                seen.add(tuple(ms))
+                C.append(mk('SumOfMinterms', aw=aw, rw=1, ms=list(ms)))
+    return C
+
+
 WIDE_WIDTHS = [63, 64, 65, 96, 128]        # 63/64 = controls, 65/96/128 = beyond one machine word
 
 
@@ -1026,6 +1055,10 @@ def main(res, tier, rng, replay):
                      (mk('Equal', aw=4, bw=4, rw=2), [[5, 5], [5, 4]]),
                      (mk('AnyEqual', rw=1, ws=[4, 4, 4]), [[9, 3, 9], [1, 2, 3], [0, 0, 0]])):
         b.add(rc, 'x', vecs)
+    # dense minterm lists, every input
+    for dc in dense_minterm_cases(tier, r.fork('dense')):
+        b.add(dc, 'all', all_vectors(dc.inw))
+        res.hist('dense_minterm_lists', f'w{dc.P[0]}')
     # list-shaped blocks over width lists with arithmetic coincidences (sum = n * w_k, permutations of a multiset, ...)
     cr = r.fork('coincidence')
     for ci2, cc in enumerate(coincidence_cases(tier)):
